@@ -1,7 +1,8 @@
-(* C12 -- one generator run as a function on the file system, built from the definitions the translator
-   produced from /repo (Generated/Gen_Regen.v): the overwrite gate and SetFileMode are the translated
-   functions, the per-file writers are the translated call skeletons run by the interpreter below,
-   the phase order is the translated list.  No proofs in this file (it is also what gets extracted). *)
+(* C12 -- one generator run as a function on the output tree, built from the definitions the translator produced from
+   /repo (Generated/Gen_Regen.v): the overwrite gate and SetFileMode are the translated functions, the per-file writers are
+   the translated call skeletons flattened into action lists and run by the interpreter below, the phase order, the
+   support-generation decision and the support-resource selection are the translated ones.  Interrupted runs are prefixes
+   of the action lists.  No proofs in this file (it is also what gets extracted). *)
 From Coq Require Import NArith List Bool.
 From Verif Require Import RegenBase Gen_Regen.
 Import ListNotations.
@@ -11,9 +12,15 @@ Inductive ikind := IType | ISupport (template : bool).
 Definition item := (path * ikind)%type.
 
 Section Model.
-  (* content id of the text that a run of content class c writes to path p: rendering is a function of the
-     configuration and the path (that this is so is C07/C10's business, not C12's) *)
-  Variable render : N -> path -> N.
+  (* Content id of the text written to path p.  The text MAY depend on everything: the tree as it is when the file is
+     opened (s), the ambient of the run (clock, process state: c_amb), the configuration class, the path.  That it depends
+     on (class, path) only is the named premise [render_independent] of the content theorems; it is not C12's to prove:
+     C10 (per-type output ignores siblings, order and earlier runs; no output file is read back) and C07 (output does not
+     depend on clock, hash seed, process state) own it. *)
+  Variable render : fs -> N -> N -> path -> N.
+
+  Definition render_independent : Prop :=
+    forall s a s' a' cl p, render s a cl p = render s' a' cl p.
 
   Definition guard_holds (c : cfg) (g : guard) : bool :=
     match g with
@@ -32,35 +39,31 @@ Section Model.
         bind sr (fun s1 => run_filepps e s1 p' r)
     end.
 
-  Definition run_act0 (e : env) (c : cfg) (p : path) (a : act) (s : fs) : fs * result :=
+  Definition run_act (e : env) (c : cfg) (p : path) (a : act) (s : fs) : fs * result :=
     match a with
     | AHandleOverwrite => handle_overwrite e s p (c_allow c)
-    | AMkdirParents => if fs_exists s p || can_create e p then (s, Ok) else (s, Err EAccess)
-    | AOpenWrite => fs_write e s p (render (c_class c) p)
-    | AShutilCopy => fs_copy e s p (render (c_class c) p) (c_resmode c)
+    | AMkdirParents => mkdirs e None (ancestors e p) s
+    | AOpenWrite => fs_write e s p (render s (c_amb c) (c_class c) p)
+    | AShutilCopy => fs_copy e s p (render s (c_amb c) (c_class c) p) (c_resmode c)
     | AFilePPs => run_filepps e s p (c_filepps c)
     | ACallGenerateCode | ACallCopyLinePPs => (s, Err EModel)
     end.
 
-  Fixpoint run_skel0 (e : env) (c : cfg) (p : path) (k : skel) (s : fs) : fs * result :=
-    match k with
+  Fixpoint run_acts (e : env) (c : cfg) (p : path) (l : list act) (s : fs) : fs * result :=
+    match l with
     | [] => (s, Ok)
-    | (gs, a) :: r =>
-        bind (if forallb (guard_holds c) gs then run_act0 e c p a s else (s, Ok)) (run_skel0 e c p r)
+    | a :: r => bind (run_act e c p a s) (run_acts e c p r)
     end.
 
-  Definition run_act1 (e : env) (c : cfg) (p : path) (a : act) (s : fs) : fs * result :=
+  (* a skeleton with its guards evaluated and its calls inlined (one level: the callees call nothing) *)
+  Definition guarded (c : cfg) (k : skel) : list act :=
+    flat_map (fun ga => if forallb (guard_holds c) (fst ga) then [snd ga] else []) k.
+
+  Definition inline (c : cfg) (a : act) : list act :=
     match a with
-    | ACallGenerateCode => run_skel0 e c p generate_code_skel s
-    | ACallCopyLinePPs => run_skel0 e c p copy_header_using_line_pps_skel s
-    | _ => run_act0 e c p a s
-    end.
-
-  Fixpoint run_skel1 (e : env) (c : cfg) (p : path) (k : skel) (s : fs) : fs * result :=
-    match k with
-    | [] => (s, Ok)
-    | (gs, a) :: r =>
-        bind (if forallb (guard_holds c) gs then run_act1 e c p a s else (s, Ok)) (run_skel1 e c p r)
+    | ACallGenerateCode => guarded c generate_code_skel
+    | ACallCopyLinePPs => guarded c copy_header_using_line_pps_skel
+    | _ => [a]
     end.
 
   Definition skel_of_kind (k : ikind) : skel :=
@@ -70,8 +73,10 @@ Section Model.
     | ISupport false => copy_header_skel      (* SupportGenerator._copy_header *)
     end.
 
+  Definition flat_acts (c : cfg) (k : ikind) : list act := flat_map (inline c) (guarded c (skel_of_kind k)).
+
   Definition write_item (e : env) (c : cfg) (s : fs) (it : item) : fs * result :=
-    run_skel1 e c (fst it) (skel_of_kind (snd it)) s.
+    run_acts e c (fst it) (flat_acts c (snd it)) s.
 
   (* a for loop whose body may raise: the exception ends the loop (and the run) *)
   Fixpoint run_list {A : Type} (f : fs -> A -> fs * result) (s : fs) (l : list A) : fs * result :=
@@ -82,8 +87,10 @@ Section Model.
 
   Definition phase_items (c : cfg) (ph : phase) : list item :=
     match ph with
-    | PhSupport => if c_gen_support c then map (fun pb => (fst pb, ISupport (snd pb))) (c_support c) else []
-    | PhTypes => if c_gen_types c then map (fun p => (p, IType)) (c_types c) else []
+    | PhSupport => if should_generate_support (c_gensup c) (c_omit c)
+                   then map (fun pb => (fst pb, ISupport (snd pb))) (support_selection (c_omit c) (c_sersup c) (c_typesup c))
+                   else []
+    | PhTypes => if generates_types (c_gensup c) then map (fun p => (p, IType)) (c_types c) else []
     end.
 
   Definition run_phase (e : env) (c : cfg) (s : fs) (ph : phase) : fs * result :=
@@ -93,13 +100,49 @@ Section Model.
   Definition step (e : env) (s : fs) (c : cfg) : fs * result :=
     run_list (run_phase e c) s cli_generate_phases.
 
-  (* any sequence of runs into the same directory; failed runs leave what they wrote *)
-  Definition history (e : env) (s : fs) (h : list cfg) : fs :=
-    fold_left (fun s c => fst (step e s c)) h s.
+  Definition items (c : cfg) : list item := flat_map (phase_items c) cli_generate_phases.
+
+  (* an interrupted run (SIGKILL, power loss, exception in a template): the first n items were written completely, of the
+     next one only the first j actions happened, and if junk = Some g the process died inside the following write, leaving
+     the file opened for writing with whatever had been flushed (content id g) *)
+  Definition step_crash (e : env) (s : fs) (c : cfg) (n j : nat) (junk : option N) : fs :=
+    let x1 := run_list (write_item e c) s (firstn n (items c)) in
+    match snd x1, nth_error (items c) n with
+    | Ok, Some it =>
+        let x2 := run_acts e c (fst it) (firstn j (flat_acts c (snd it))) (fst x1) in
+        match snd x2, junk with
+        | Ok, Some g => fst (fs_write e (fst x2) (fst it) g)
+        | _, _ => fst x2
+        end
+    | _, _ => fst x1        (* the run had already ended with an exception, or there is no such item *)
+    end.
+
+  (* what can happen to the directory: complete runs (successful or failed) and interrupted ones *)
+  Inductive event :=
+  | Run (c : cfg)
+  | Crash (c : cfg) (n j : nat) (junk : option N).
+
+  Definition ev_cfg (ev : event) : cfg := match ev with Run c => c | Crash c _ _ _ => c end.
+
+  Definition apply_event (e : env) (s : fs) (ev : event) : fs :=
+    match ev with
+    | Run c => fst (step e s c)
+    | Crash c n j junk => step_crash e s c n j junk
+    end.
+
+  Definition history (e : env) (s : fs) (h : list event) : fs := fold_left (apply_event e) h s.
 
   (* ---- what the property talks about -------------------------------------------------------- *)
-  Definition items (c : cfg) : list item := flat_map (phase_items c) cli_generate_phases.
   Definition targets (c : cfg) : list path := map fst (items c).
+
+  (* the only other paths a run can touch: directories above a target (created when missing), and the entry
+     <target>/<resource name> when shutil.copy is one of the actions for that target *)
+  Definition copies (c : cfg) (k : ikind) : bool :=
+    existsb (fun a => match a with AShutilCopy => true | _ => false end) (flat_acts c k).
+  Definition copy_targets (c : cfg) : list path :=
+    map fst (filter (fun it => copies c (snd it)) (items c)).
+  Definition dir_targets (e : env) (c : cfg) : list path := flat_map (ancestors e) (targets c).
+  Definition child_targets (e : env) (c : cfg) : list path := map (child e) (copy_targets c).
 
   Definition obs (o : option fmeta) : option (N * N) :=
     match o with Some f => Some (f_cid f, f_mode f) | None => None end.
@@ -112,8 +155,9 @@ Section Model.
 
   (* the file a run of c is supposed to leave at target p: its own text with the requested mode *)
   Definition canonical (e : env) (c : cfg) (p : path) : option (N * N) :=
-    Some (render (c_class c) p, last_mode (c_filepps c) (N.ldiff 438 (umask e))).
+    Some (render empty_fs 0 (c_class c) p, last_mode (c_filepps c) (N.ldiff 438 (umask e))).
 
-  (* the configuration the command line builds: SetFileMode(file_mode) is the only (modelled) file post-processor *)
-  Definition cli_cfg (c : cfg) : Prop := exists m, c_filepps c = [PPSetFileMode m].
+  (* trigger of the copy-into-directory behaviour of shutil.copy: a directory sits at a target that is written with shutil.copy *)
+  Definition dir_at_copy_target (c : cfg) (s : fs) : bool :=
+    existsb (fun p => fs_is_dir s p) (copy_targets c).
 End Model.
